@@ -279,6 +279,9 @@ def run_rule(ctx, rule_name, part=0, parts=1):
                     opts.append(v)
         if ctx.tier == "thorough":
             opts += [v for v in EXOTIC if v not in spec[1:] and v not in opts]
+        if len(spec) > 1:
+            # values that are not text at all (a JSON boolean, a number put there by a program): never a listed value
+            opts += [True, False, 1]
         options.append([(a, o) for o in opts])
     n_cases = 0
     for ci, combo in enumerate(itertools.product(*options)):
